@@ -10,7 +10,9 @@
 #include <set>
 #include <sys/mman.h>
 #include <sys/personality.h>
+#include <sys/syscall.h>
 #include <sys/wait.h>
+#include <time.h>
 #include <unistd.h>
 
 namespace sim
@@ -280,8 +282,25 @@ struct Shrinker
 	std::string cls;
 	int execs  = 0;
 	int budget = 400;
+	// Wall-clock budget of one shrink (harness side, outside any run; read through the raw system call because the clock
+	// symbols of this executable are wrapped). It only bounds how far the plan is minimised - whatever plan results is
+	// still gated by re-execution and by the fresh-process replay.
+	double deadline = 0;
+	static double now()
+	{
+		struct timespec ts;
+		syscall(SYS_clock_gettime, CLOCK_MONOTONIC, &ts);
+		return (double) ts.tv_sec + 1e-9 * (double) ts.tv_nsec;
+	}
 	bool fails(const Plan& p)
 	{
+		if(deadline == 0)
+			deadline = now() + (opts.tier == "thorough" ? 300.0 : 90.0);
+		if(now() > deadline)
+		{
+			execs = budget;
+			return false;
+		}
 		execs++;
 		// shrink candidates get a short leash: a candidate that hangs is simply not accepted
 		Opts quick_opts		 = opts;
